@@ -39,14 +39,18 @@ AtomsOf(pp) ==
       Bin(">", Call("count", <<pp>>), N(1)),
       Bin("=", Call("count", <<pp>>), N(0)),
       Call("contains", <<pp, Lit("1")>>),
-      Call("starts-with", <<pp, Lit("x")>>) }
+      Call("starts-with", <<pp, Lit("x")>>),
+      \* the literal on the LEFT
+      Bin("<", N(1), pp), Bin(">=", N(1), pp), Bin("=", Lit("1"), pp), Bin("!=", Lit("1"), pp),
+      Bin("<", N(1), Call("count", <<pp>>)) }
 
 SelfAtoms ==
     { Bin("=", Call("local-name", <<>>), Lit("a")),
       Call("contains", <<SelfDot, Lit("1")>>),
       Call("starts-with", <<SelfDot, Lit("x")>>),
       Bin("=", SelfDot, Lit("1")),
-      Bin(">", SelfDot, N(1)) }
+      Bin(">", SelfDot, N(1)),
+      Bin("<", N(1), SelfDot) }
 
 Atoms1(axes, tests) == UNION {AtomsOf(pp) : pp \in PredPaths(axes, tests)} \cup SelfAtoms
 
